@@ -36,3 +36,16 @@ def dedupe(cases, keyf):
             seen.add(k)
             out.append(c)
     return out
+
+
+def recentre(dims, centre):
+    """same alphabet, with the values named in `centre` moved to the front (so they become the default cell)"""
+    out = {}
+    for nm, vals in dims.items():
+        if nm in centre:
+            c = centre[nm]
+            assert c in vals, (nm, c)
+            out[nm] = [c] + [v for v in vals if v != c]
+        else:
+            out[nm] = list(vals)
+    return out
